@@ -1,7 +1,7 @@
 (* Correspondence for C19: (1) the token sequences of the real lexer (hook) on grammar-based, mutated and arbitrary
    Unicode strings equal the model's; (2) under IntentErrorRecovery=Error, speech for an expression whose top row carries
    the intent value fails exactly when the model's parser rejects the value (arguments a and b present).  Kernel-checked. *)
-From MC Require Import Lib.Base Lib.Tree Gen.C19Obs Model.Intent.
+From MC Require Import Lib.Base Lib.Tree Gen.C19Obs Model.Intent Model.FindArg.
 From Coq Require Import String.
 Local Close Scope string_scope.
 Local Open Scope N_scope.
@@ -28,10 +28,38 @@ Definition ms (p : str) : option tree := Some (T (S "mrow"%string) [] [] []).
 Definition accept_ok (o : str * bool) : bool :=
   Bool.eqb (match parse fa ms (S "mrow"%string) (fst o) with Some _ => true | None => false end) (snd o).
 
+(* (3) find_arg: under Error mode the intent f($x) on a generated tree (arg in {none, x, y} on any element, rows with or
+   without an intent of their own) is accepted exactly when the model resolves $x, and when exactly one number is spoken it
+   is the label of the element the model finds *)
+Fixpoint subtree (l : N) (t : atree) {struct t} : option atree :=
+  match t with
+  | AT _ _ kids l' =>
+      if l' =? l then Some t else
+      (fix go (ks : list atree) : option atree :=
+         match ks with [] => None | k :: ks' => match subtree l k with Some r => Some r | None => go ks' end end) kids
+  end.
+Fixpoint labels (t : atree) {struct t} : list N :=
+  match t with
+  | AT _ _ kids l => l :: (fix go (ks : list atree) : list N := match ks with [] => [] | k :: ks' => labels k ++ go ks' end) kids
+  end.
+(* the number spoken (when exactly one is) is a label inside the element the model finds *)
+Definition arg_ok (o : atree * bool * option N) : bool :=
+  let '(t, acc, lab) := o in
+  match resolve 1 t with
+  | Some r => acc && match lab with
+                     | Some l => match subtree r t with Some st => memN l (labels st) | None => false end
+                     | None => true
+                     end
+  | None => negb acc
+  end.
+
 Fixpoint bad_idx {A} (f : A -> bool) (i : N) (l : list A) : list N :=
   match l with [] => [] | o :: t => if f o then bad_idx f (i + 1) t else i :: bad_idx f (i + 1) t end.
 Eval vm_compute in (bad_idx lex_ok 0 lex_obs).
 Eval vm_compute in (bad_idx accept_ok 0 accept_obs).
+Eval vm_compute in (bad_idx arg_ok 0 arg_obs).
+Lemma arg_agree : forallb arg_ok arg_obs = true.
+Proof. vm_compute. reflexivity. Qed.
 Lemma lex_agree : forallb lex_ok lex_obs = true.
 Proof. vm_compute. reflexivity. Qed.
 Lemma accept_agree : forallb accept_ok accept_obs = true.
